@@ -145,6 +145,9 @@ func consistency(hc bool) openfgav1.ConsistencyPreference {
 func (e *Env) RunCheck(ctx context.Context, ev *CheckEv, ts *typesystem.TypeSystem, mg *modelgraph.AuthorizationModelGraph) {
 	ev.E = "Check"
 	ev.Got, ev.Errk, ev.Err = "", "", ""
+	if e.lastSetup != "" {
+		Activity.Store("Check eng=" + ev.Eng + " " + ev.O.String() + "#" + ev.R + "@" + ev.U.String() + " ctx=" + jsonOf(ev.Ctx) + " ctxt=" + jsonOf(ev.Ctxt) + " || " + e.lastSetup)
+	}
 	ev.Shi = strings.Contains(e.name+":", ":shi:") // served with shared iterators on (KF-24 call site)
 	ev.Ctx = normCtx(ev.Ctx)
 	ev.Ctxt = normTuples(ev.Ctxt)
